@@ -55,6 +55,25 @@ template <class S> static Out run(const sg::Crs<double> &A, const ptree &p, cons
     } catch (const std::exception &e) { o.threw = true; o.what = e.what(); }
     return o;
 }
+// Call form S(rhs, x) of the mixed solver iterates on the preconditioner's single-precision copy of the matrix.  When every entry
+// of A is representable in float that copy IS the matrix, so the reported residual has to be truthful for the double system:
+// two solves on one object, the second warm-started from the first solution with a slightly different right-hand side (a
+// non-zero initial guess makes the first residual f - A x0 a difference of nearly equal numbers).
+struct Warm { bool threw = false; std::string what; size_t it1 = 0, it2 = 0; double r1 = 0, r2 = 0; std::vector<double> x1, x2, f2; };
+static bool float_exact(const sg::Crs<double> &A) { for (double v : A.val) if ((double)(float)v != v) return false; return true; }
+static Warm run_warm(const sg::Crs<double> &A, const ptree &p, const std::vector<double> &f) {
+    Warm w;
+    try {
+        int n = A.n; std::vector<ptrdiff_t> ptr = A.ptr, col = A.col; std::vector<double> val = A.val; auto At = std::tie(n, ptr, col, val);
+        SM s(At, p);
+        w.x1.assign(n, 0.0);
+        std::tie(w.it1, w.r1) = s(f, w.x1);
+        w.f2 = f; for (int i = 0; i < n; ++i) w.f2[i] *= 1.0 + 0.0009765625 * (1 + i % 5);
+        w.x2 = w.x1;
+        std::tie(w.it2, w.r2) = s(w.f2, w.x2);
+    } catch (const std::exception &e) { w.threw = true; w.what = e.what(); }
+    return w;
+}
 static bool allowed_breakdown(const std::string &w) { return w.find("Zero rho") != std::string::npos || w.find("Zero omega") != std::string::npos || w.find("breakdown") != std::string::npos; }
 static bool unsupported(const std::string &w) { return w.find("not supported") != std::string::npos; }
 
@@ -125,6 +144,18 @@ int main(int argc, char **argv) {
                     }
                 } else vf::count("mixed.nonfinite");
                 if (cm) { vf::count("mixed.converged"); long d = (long)om.iters - (long)od.iters; if (cd) vf::count(d <= 0 ? "iters.mixed_le_double" : d <= 2 ? "iters.mixed_minus_double_1_2" : d <= 10 ? "iters.mixed_minus_double_3_10" : "iters.mixed_minus_double_gt_10"); }
+                if (float_exact(S.A) && !om.threw) {
+                    Warm w = run_warm(S.A, p, f);
+                    if (!w.threw && c13::all_finite(w.x1) && c13::all_finite(w.x2) && std::isfinite(w.r1) && std::isfinite(w.r2)) {
+                        ld fn2 = sg::norm2_ld(w.f2);
+                        ld t1 = c13::truth(S.A, f, w.x1), t2 = c13::truth(S.A, w.f2, w.x2);
+                        ld b1 = c13::bound(w.it1, S.A.n, sv, 0, sg::norm2_ld(w.x1), fn, w.r1), b2 = c13::bound(w.it2, S.A.n, sv, sg::norm2_ld(w.x1), sg::norm2_ld(w.x2), fn2, w.r2);
+                        vf::count("mixed.warm_start_pairs");
+                        if (!(w.r1 > 1 || t1 > 1) && !(fabsl((ld)w.r1 - t1) <= b1) && !(w.r1 < 1e-8 && t1 < 1e-8L)) vf::fail("mp.truthful_own_matrix." + so, key, vf::KS() << "S(rhs,x), cold start: reported=" << w.r1 << " true=" << (double)t1 << " bound=" << (double)b1 << in);
+                        else if (!(w.r2 > 1 || t2 > 1) && ((w.r2 < 1e-8 && !(t2 <= 1e-8L * (1 + 1e-6L) + b2)) || (!(fabsl((ld)w.r2 - t2) <= b2) && !(w.r2 < 1e-8 && t2 < 1e-8L))))
+                            vf::fail("mp.truthful_warm_start." + so, key, vf::KS() << "S(rhs,x), second solve warm-started from the first solution: reported=" << w.r2 << " true=" << (double)t2 << " |diff|=" << (double)fabsl((ld)w.r2 - t2) << " > bound=" << (double)b2 << " iters=" << w.it2 << in);
+                    } else vf::count("mixed.warm_start_not_judged");
+                }
                 if (cd && !cm) vf::fail("mp.reaches_tol." + so, key, vf::KS() << "double preconditioner: " << od.iters << " its, reported " << od.resid << " (true " << (double)trd << "); float preconditioner: " << om.iters << " its, reported " << om.resid << " (true " << (double)trm << ")" << in);
             }
         }
